@@ -213,10 +213,35 @@ package gtfs
 //@   loop 2 invariant csvOK(f)
 //@   loop 2 decreases remaining(f.csvReader)
 
+// parseTime: success and value are those of time.ParseInLocation("20060102", s, timezone), i.e. (assumed contract
+// of package time) the start of the civil day s in that zone.
+//@ func parseTime
+//@   props C01 C05 C06 C11 C18
+//@   ensures [valid-iff] (result.1 == nil) == validDate("20060102", s)
+//@   ensures [value] result.1 == nil ==> result.0 == parsedDate("20060102", s, timezone)
+//@   assigns nothing
+
+// a calendar_dates row is accepted iff its date parses, its three cells are non-blank and its type is 1 or 2 (C09, C11)
+//@ pure func cdAccepted(f *csv.File) bool = validDate("20060102", col(f, "date")) && col(f, "service_id") != "" && col(f, "date") != "" && (col(f, "exception_type") == "1" || col(f, "exception_type") == "2")
+// S is S0 (the service before the row; the zero Service if there was none) extended by date d of exception type typ
+//@ pure func cdMerged(S Service, S0 Service, had bool, id string, d time.Time, typ string) bool = S.Id == id && S.Monday == S0.Monday && S.Tuesday == S0.Tuesday && S.Wednesday == S0.Wednesday && S.Thursday == S0.Thursday && S.Friday == S0.Friday && S.Saturday == S0.Saturday && S.Sunday == S0.Sunday && S.StartDate == ((had && ns(S0.StartDate) <= ns(d)) ? S0.StartDate : d) && S.EndDate == ((had && ns(d) <= ns(S0.EndDate)) ? S0.EndDate : d) && (typ == "1" ==> len(S.AddedDates) == len(S0.AddedDates) + 1 && S.AddedDates[len(S.AddedDates) - 1] == d && S.RemovedDates == S0.RemovedDates) && (typ == "2" ==> len(S.RemovedDates) == len(S0.RemovedDates) + 1 && S.RemovedDates[len(S.RemovedDates) - 1] == d && S.AddedDates == S0.AddedDates)
+//@ pure func cdStep(m ?, id string, d time.Time, typ string) bool = has(m, id) && cdMerged(m[id], athead(1, m[id]), athead(1, has(m, id)), id, d, typ)
+//@ pure func cdPrefixKept(m ?, id string) bool = (forall j int :: 0 <= j && j < athead(1, len(m[id].AddedDates)) ==> m[id].AddedDates[j] == athead(1, m[id].AddedDates[j])) && (forall j int :: 0 <= j && j < athead(1, len(m[id].RemovedDates)) ==> m[id].RemovedDates[j] == athead(1, m[id].RemovedDates[j]))
+// exception lists never share storage (they grow by append from nothing, one header per service)
+//@ pure func cdOwnStorage(m ?) bool = (forall a string, b string :: has(m, a) && has(m, b) && a != b ==> (cap(m[a].AddedDates) == 0 || cap(m[b].AddedDates) == 0 || obj(m[a].AddedDates) != obj(m[b].AddedDates)) && (cap(m[a].RemovedDates) == 0 || cap(m[b].RemovedDates) == 0 || obj(m[a].RemovedDates) != obj(m[b].RemovedDates))) && (forall a string, b string :: has(m, a) && has(m, b) ==> cap(m[a].AddedDates) == 0 || cap(m[b].RemovedDates) == 0 || obj(m[a].AddedDates) != obj(m[b].RemovedDates))
+//@ pure func cdRangeCovers(m ?) bool = (forall id string, k int :: has(m, id) && 0 <= k && k < len(m[id].AddedDates) ==> ns(m[id].StartDate) <= ns(m[id].AddedDates[k]) && ns(m[id].AddedDates[k]) <= ns(m[id].EndDate)) && (forall id string, k int :: has(m, id) && 0 <= k && k < len(m[id].RemovedDates) ==> ns(m[id].StartDate) <= ns(m[id].RemovedDates[k]) && ns(m[id].RemovedDates[k]) <= ns(m[id].EndDate))
+
 //@ func parseCalendarDates
-//@   props C01 C05 C08 C09 C11
+//@   props C01 C05 C06 C08 C09 C11
 //@   requires csvOK(csv) && m != nil
-//@   loop 1 invariant csvOK(csv)
+//@   requires [no-exceptions-yet] forall id string :: has(m, id) ==> len(m[id].AddedDates) == 0 && cap(m[id].AddedDates) == 0 && len(m[id].RemovedDates) == 0 && cap(m[id].RemovedDates) == 0
+//@   ensures [range-covers-every-exception-date] cdRangeCovers(m)
+//@   loop 1 invariant csvOK(csv) && csv.csvReader == old(csv.csvReader)
+//@   loop 1 invariant [own-storage] cdOwnStorage(m)
+//@   loop 1 invariant [range-covers-every-exception-date] cdRangeCovers(m)
+//@   loop 1 step [accepted-row-extends-its-service] cdAccepted(csv) ==> cdStep(m, col(csv, "service_id"), parsedDate("20060102", col(csv, "date"), timezone), col(csv, "exception_type"))
+//@   loop 1 step [dates-already-recorded-are-kept] cdAccepted(csv) ==> cdPrefixKept(m, col(csv, "service_id"))
+//@   loop 1 step [other-services-untouched] forall k string :: (k != col(csv, "service_id") || !cdAccepted(csv)) ==> has(m, k) == athead(1, has(m, k)) && m[k] == athead(1, m[k])
 //@   loop 1 decreases remaining(csv.csvReader)
 
 //@ pure func routeIn(p *Route, routes []Route, id string) bool = p != nil && obj(p) == obj(routes) && off(routes) <= idx(p) && idx(p) < off(routes) + len(routes) && p == &routes[idx(p) - off(routes)] && p.Id == id
